@@ -71,13 +71,14 @@ theorem sTimed_inv_ids : sTimed.d.invs.map (fun v => (v.id, v.callId, v.callee, 
 theorem sProg_inv_ids : sProg.d.invs.map (fun v => (v.id, v.callId, v.callee, v.inProgress)) =
     [(⟨1, 1⟩, ⟨2, 7⟩, 1, true)] := by decide +kernel
 
-/-! ### a progressive call invocation with a router-side timeout: two chunks, two timers -/
+/-! ### a progressive call invocation with a router-side timeout: two chunks, two timers, the first one cancelled by
+    the second chunk -/
 
 def env50 : DEnv := { sess := sessions, full := fun _ => false, now := 50 }
 def env100 : DEnv := { sess := sessions, full := fun _ => false, now := 100 }
 /-- first chunk at time 0 with timeout 100: timer 1, deadline 100 -/
 def sProgT : DState := (syncCall env sReg 2 8 [(OptProgress, .bool true), (OptTimeout, .int 100)] "p" [] [] 0).st
-/-- second chunk at time 50: timer 2, deadline 150, recorded in the invocation; timer 1 is NOT cancelled -/
+/-- second chunk at time 50: timer 1 is cancelled; timer 2, deadline 150, is armed and recorded in the invocation -/
 def sProgT2 : DState := (syncCall env50 sProgT 2 8 [(OptProgress, .bool true)] "p" [] [] 0).st
 
 theorem sProgT_reach : Reachable sProgT :=
@@ -85,7 +86,7 @@ theorem sProgT_reach : Reachable sProgT :=
 theorem sProgT2_reach : Reachable sProgT2 := .step sProgT_reach (.call env50 2 8 [(OptProgress, .bool true)] "p" [] [] 0)
 
 theorem sProgT2_timers : sProgT2.timers.map (fun t => (t.id, t.deadline, t.caller, t.req, t.canceled)) =
-    [(1, 100, 2, 8, false), (2, 150, 2, 8, false)] := by decide +kernel
+    [(1, 100, 2, 8, true), (2, 150, 2, 8, false)] := by decide +kernel
 theorem sProgT2_inv : sProgT2.d.invs.map (fun v => (v.id, v.callId, v.canceled, v.timer)) =
     [(⟨1, 1⟩, ⟨2, 8⟩, false, some 2)] := by decide +kernel
 
